@@ -140,7 +140,7 @@ func siteOf(name string) (site, wrap) {
 	return dynamicSites()[si], contexts()[ci]
 }
 
-var c02Strings = []string{"neutral", `<b>`, `a"b`, `it's`, `&amp;`, `</p><script>alert(1)</script>`, `x" onclick="y`, `\`, `\"`, "\x00", "\x7f", "é", "😀", "a b", " lead", "trail ", "\n", "~☢", "~☢<", ">☢~", "☢", "~", "-->", "<!--", "`", "{}", "#{x}", "%s", "'", "&", "<", ">", "\"", "=", "/"}
+var c02Strings = []string{"neutral", "Ċč上", "ĠĢĨĩ", "ŻŽśŝ", `<b>`, `a"b`, `it's`, `&amp;`, `</p><script>alert(1)</script>`, `x" onclick="y`, `\`, `\"`, "\x00", "\x7f", "é", "😀", "a b", " lead", "trail ", "\n", "~☢", "~☢<", ">☢~", "☢", "~", "-->", "<!--", "`", "{}", "#{x}", "%s", "'", "&", "<", ">", "\"", "=", "/"}
 
 func c02(c *Ctx) {
 	c.Rep.TieObs = []string{"O-render", "O-rt (helpers, see C19)"}
@@ -389,7 +389,7 @@ func staticSites() []staticSite {
 	}
 }
 
-var c04Strings = []string{"plain", `ends in \n`, `n\`, "nn", `\\n`, "x#", "##", "#é", "a# b", "é#", "a&b", `a"b`, "a'b", `say "hi"`, `back\slash`, "tick`tock", `a\nb`, `\"`, `\x`, `\t`, "{x}", "# h", "a#b", "50% off", "a&b", "<b>", "it's", "ünï", "日本", "a😀b", "x}y", "{", "q?", "a:b", "a,b", "a=b", "~☢<", ">☢~", "tab\there", `\`, `\\`, `"`, "`", "'", "&amp;", "a-b_c", "x.y", "@k", "a/b"}
+var c04Strings = []string{"plain", "Ċč", "Ġ", "Ĩĩ", "Ģģ", "ĺĬ", "ĿĽ", "ŻŽ", "śŝ", "Įĥį", "上不😊", `ends in \n`, `n\`, "nn", `\\n`, "x#", "##", "#é", "a# b", "é#", "a&b", `a"b`, "a'b", `say "hi"`, `back\slash`, "tick`tock", `a\nb`, `\"`, `\x`, `\t`, "{x}", "# h", "a#b", "50% off", "a&b", "<b>", "it's", "ünï", "日本", "a😀b", "x}y", "{", "q?", "a:b", "a,b", "a=b", "~☢<", ">☢~", "tab\there", `\`, `\\`, `"`, "`", "'", "&amp;", "a-b_c", "x.y", "@k", "a/b"}
 
 func c04(c *Ctx) {
 	c.tieQuote()
